@@ -54,7 +54,18 @@ def regen():
     rc, out, _ = sh([sys.executable, os.path.join(VERIF, 'tools', 'regen.py'), REPO, os.path.join(COQ, 'Guards.v'), st], 60)
     if rc != 0:
         return {'error': out, 'sites': [], 'untied': [['regen.py', out[-400:]]]}
-    return json.load(open(st))
+    rg = json.load(open(st))
+    # the statement skeletons of core.rs / synchronizer.rs (tools/skel.py -> coq/GenCore.v; tied to the model by coq/Tie_*.v)
+    st2 = os.path.join(BUILD, 'skel.json')
+    rc, out, _ = sh([sys.executable, os.path.join(VERIF, 'tools', 'skel.py'), REPO, os.path.join(COQ, 'GenCore.v'), st2], 60)
+    if rc != 0:
+        rg['untied'] = rg.get('untied', []) + [['skel.py', out[-400:]]]
+        rg['skeleton'] = []
+    else:
+        sk = json.load(open(st2))
+        rg['skeleton'] = sk['functions']
+        rg['untied'] = rg.get('untied', []) + sk['untied']
+    return rg
 
 
 def coq_makefile():
@@ -91,13 +102,17 @@ def coq_build(targets, timeout):
 
 def props_audit(pid, timeout):
     """Recompile Props/<ID>.v capturing its output; returns (obligations, discharged, problems, names)."""
-    vo = os.path.join(COQ, 'Props', pid + '.vo')
-    # first bring every dependency up to date (their own output, e.g. Print Assumptions lines inside proof files, must not be
-    # mistaken for the output of the Props file), then recompile the Props file alone and capture what it prints
-    coq_build(['Props/%s.vo' % pid], timeout)
-    if os.path.exists(vo):
-        os.remove(vo)
+    # first bring the file and every dependency up to date with make (their own output, e.g. Print Assumptions lines inside proof
+    # files, must not be mistaken for the output of the Props file), then compile the Props file alone once more with a direct coqc
+    # (output .vo discarded) and capture what it prints
     ok, out, fails, dt = coq_build(['Props/%s.vo' % pid], timeout)
+    if ok:
+        os.makedirs(os.path.join(BUILD, 'audit'), exist_ok=True)
+        scratch = os.path.join(BUILD, 'audit', '%s.vo' % pid)
+        rc, out, _ = sh(['coqc', '-noglob', '-Q', COQ, 'HS', '-o', scratch, os.path.join(COQ, 'Props', pid + '.v')], timeout, cwd=COQ)
+        if rc != 0:
+            ok = False
+            fails = [{'file': 'Props/%s.v' % pid, 'line': 0, 'lemma': None, 'msg': ' '.join(out.split())[-300:]}]
     src = open(os.path.join(COQ, 'Props', pid + '.v')).read()
     names = re.findall(r'^Print Assumptions ([A-Za-z_0-9\']+)\.', src, re.M)
     checks = re.findall(r'^Check @?([A-Za-z_0-9\']+)\s*:', src, re.M)
@@ -368,10 +383,14 @@ def run_check(pid, P, tier, seed, replay, t0):
     if untied:
         notes.append('untied sites (fell back to committed definition): %s' % untied)
     # 2./3. proofs
+    ties = ['Tie_' + f for f in P.get('tie', [])]
     ok, log, fails, dt_make = coq_build(P.get('vo', []) + ['Props/%s.vo' % pid], P.get('coq_timeout', 1500))
+    # the tie lemmas of the regenerated skeletons this property depends on (a failing one must not mask the others: -k)
+    if ties:
+        coq_build(['Props/%s.vo' % t for t in ties], P.get('coq_timeout', 1500))
     obligations, discharged, problems, names, pf = props_audit(pid, P.get('coq_timeout', 1500))
     # further pinned-statement files this property relies on (e.g. the monitor-soundness theorems)
-    for extra in P.get('extra_props', []):
+    for extra in P.get('extra_props', []) + ties:
         o2, d2, p2, n2, pf2 = props_audit(extra, P.get('coq_timeout', 1500))
         obligations += o2; discharged += d2; problems += p2; names += ['%s.%s' % (extra, n) for n in n2]; pf += pf2
     supporting = count_supporting(pid)
@@ -488,7 +507,7 @@ def run_check(pid, P, tier, seed, replay, t0):
                 continue
             violations.append(('correspondence', 'model and implementation disagree on %s case %s' % (c['name'], case.get('case')), {'run': c['name'], 'case': strip(case)}, False))
     # an untied site (the translator no longer recognises the expression): the theorems are about a stale definition
-    rel_untied = [u for u in untied if not P.get('sites') or u[0] in P['sites']]
+    rel_untied = [u for u in untied if u[0] in P.get('sites', []) or u[0] in ['gen_' + f for f in P.get('tie', [])] or (not P.get('sites') and not u[0].startswith('gen_')) or u[0] in ('regen.py', 'skel.py')]
     if rel_untied and not violations:
         violations.append(('tie', 'regenerated definitions no longer tied to the source (site not recognised by tools/regen.py; the correspondence search found no difference): %s' % rel_untied, {'untied': rel_untied}, False))
     # 5. decide
@@ -554,9 +573,10 @@ def evidence(pid, P, tier, seed, obligations, discharged, supporting, names, cor
         'checker_cmd': 'cd /verif/coq && coq_makefile -f _CoqProject -o Makefile && make -j16 Props/%s.vo  (coqc 8.16.1, full .vo build; Print Assumptions of every pinned theorem audited against an empty allow-list)' % pid,
         'trusted_base': P.get('trusted_base', []) + [
             'Coq 8.16.1 kernel, vm_compute (no native_compute)', 'axioms: none (every pinned theorem: Closed under the global context)',
-            'tools/regen.py (translator of the decision expressions from the Rust source)',
+            'tools/regen.py (translator of the decision expressions from the Rust source)', 'tools/skel.py + tools/rustparse.py (translator of the statement skeletons of core.rs/synchronizer.rs into the model monad; coq/SkelPrims.v names the primitives)', 'tools/skel.py + tools/rustparse.py (translator of the statement skeletons of core.rs/synchronizer.rs into the model monad; coq/SkelPrims.v names the primitives)',
             'correspondence harness /verif/harness (abstraction of keys to ranks, digests to symbolic terms, signatures to provenance)'],
         'theorems': names, 'supporting_lemmas_in_imported_files': supporting,
+        'regenerated_skeletons': [{'name': k['name'], 'where': '%s: fn %s (line %s)' % (k.get('file'), k.get('fn'), k.get('line')), 'tied_by': 'coq/Tie_%s.v' % k['name'][4:], **({'untied': k['untied']} if not k.get('ok') else {})} for k in rg.get('skeleton', []) if k['name'][4:] in P.get('tie', [])],
         'regenerated_sites': [{'name': s['name'], 'rust': s.get('rust'), 'coq': s.get('coq'), 'where': '%s:%s' % (s.get('file'), s.get('line')), **({'untied': s['untied']} if 'untied' in s else {})} for s in rg.get('sites', []) if not P.get('sites') or s['name'] in P['sites']],
         'evaluations': evals, 'distinct_nontrivial': distinct,
         'rule': P.get('rule', 'correspondence cases generated from VERIF_SEED; distinct_nontrivial counted by the harness'),
